@@ -249,6 +249,59 @@ Definition run_history (hist : list (bool * list string)) (st : pstate) : pstate
 Definition st_initial : pstate :=
   [("base_model", ["UNSET"; "UnsetType"]); ("base_model", ["Upload"]); ("async_base_client", ["AsyncBaseClient"])].
 
+(* ------------------------------------------------------------------ isort's section placement *)
+(* isort.code(code) puts every `from m import ...` into a section: __future__, standard library, third party,
+   first party, local (relative).  isort.place: relative -> local; known lists (stdlib ...) next; THEN the
+   FILESYSTEM: a module/package named like the root of m below <cwd> or <cwd>/src makes it first party;
+   otherwise the default section, third party.  The decision is cached per module for the whole process.
+   [ienv] is that filesystem oracle: is module m found below cwd at the moment isort FIRST places it?
+   [fs_free] = isort.code(code, config=Config(src_paths=())) : no source path is searched (proposed fix). *)
+Inductive isection := SecFuture | SecStdlib | SecThirdParty | SecFirstParty | SecLocal.
+Definition isection_eqb (a b : isection) : bool :=
+  match a, b with
+  | SecFuture, SecFuture | SecStdlib, SecStdlib | SecThirdParty, SecThirdParty
+  | SecFirstParty, SecFirstParty | SecLocal, SecLocal => true
+  | _, _ => false
+  end.
+Definition ienv := string -> bool.
+Fixpoint root_chars (l : chars) : chars :=
+  match l with
+  | [] => []
+  | c :: r => if Ascii.eqb c "."%char then [] else c :: root_chars r
+  end.
+Definition root_of (m : string) : string := l2s (root_chars (s2l m)).
+(* an import = (level, module): level 0 is absolute *)
+Definition place (fs_free : bool) (stdlib : list string) (env : ienv) (imp : nat * string) : isection :=
+  if Nat.ltb 0 (fst imp) then SecLocal
+  else let r := root_of (snd imp) in
+       if String.eqb r "__future__" then SecFuture
+       else if mem_s r stdlib then SecStdlib
+       else if fs_free then SecThirdParty
+       else if env (snd imp) then SecFirstParty else SecThirdParty.
+(* the blocks of absolute imports, in section order; inside a block by lower-cased module name; empty blocks
+   do not appear (each block is followed by a blank line in the file) *)
+Definition block (fs_free : bool) (stdlib : list string) (env : ienv) (imps : list (nat * string)) (sec : isection)
+  : list string :=
+  ksort str_leb lower_s (dedupe_first [] (map snd (filter (fun i => isection_eqb (place fs_free stdlib env i) sec) imps))).
+Definition layout (fs_free : bool) (stdlib : list string) (env : ienv) (imps : list (nat * string))
+  : list (list string) :=
+  filter (fun b => match b with [] => false | _ => true end)
+         (map (block fs_free stdlib env imps) [SecFuture; SecStdlib; SecThirdParty; SecFirstParty]).
+(* what isort sees while a package is generated with cwd = the project directory: the entries of cwd; and the
+   target package itself — always when a previous generation left it there; on a fresh run the directory is
+   created empty just before the first file (input_types.py) is formatted: an empty directory is a namespace
+   package to isort, the nested module is not in it yet, so the modules first placed THEN ([early]) are "not
+   first party" (and stay so: cached), while modules first placed for a later file find a directory with a
+   python file in it, i.e. a regular package *)
+Definition gen_env (cwd : list string) (target : string) (regenerate : bool) (early : list string) : ienv :=
+  fun m => let r := root_of m in
+           mem_s r cwd || (String.eqb r target && (regenerate || negb (mem_s m early))).
+(* the defect class: some absolute import of a generated module has the target package (or another name that
+   appears in cwd between two runs) as its root *)
+Definition g_c10_isort (changing : list string) (stdlib : list string) (imps : list (nat * string)) : bool :=
+  forallb (fun i => Nat.ltb 0 (fst i) || mem_s (root_of (snd i)) stdlib
+                    || negb (mem_s (root_of (snd i)) changing)) imps.
+
 (* ------------------------------------------------------------------ the site table *)
 Inductive sink :=
 | SkNone        (* construction / pure set algebra: no order observed here *)
@@ -257,7 +310,9 @@ Inductive sink :=
 | SkIsort       (* names of one from-import statement: ordered by isort's stable key sort *)
 | SkRaw         (* iteration order reaches emitted text unchanged *)
 | SkErrorText   (* reaches only the text of an exception / warning, no generated file *)
-| SkInput       (* ambient input that the property holds fixed (cwd) or excludes (timestamp comment) *).
+| SkInput       (* ambient input that the property holds fixed (cwd) or excludes (timestamp comment) *)
+| SkPureText    (* a formatter that is a function of its text argument alone (black, autoflake; isort without source paths) *)
+| SkFsSections  (* isort with the default configuration: section placement consults the filesystem below cwd *).
 
 Record site := {
   s_file : string; s_fn : string; s_ctx : string; s_expr : string; s_sink : sink; s_note : string
@@ -269,6 +324,7 @@ Definition sink_name (k : sink) : string :=
   match k with
   | SkNone => "none" | SkSorted => "sorted" | SkMember => "member" | SkIsort => "isort"
   | SkRaw => "raw" | SkErrorText => "errortext" | SkInput => "input"
+  | SkPureText => "puretext" | SkFsSections => "fs-sections"
   end.
 
 (* what an observer of the emitted text can learn from one iteration [xs] of the set, per sink;
@@ -282,10 +338,21 @@ Definition observe (k : sink) (xs : list string) (probe : string) : list string 
   | SkRaw => xs
   | SkErrorText => []
   | SkInput => []
+  | SkPureText => []
+  | SkFsSections => []
   end.
 (* sinks whose observation can depend on the iteration order *)
 Definition order_sensitive (k : sink) : bool :=
   match k with SkRaw | SkIsort => true | _ => false end.
+
+(* sinks whose observation can depend on the ENVIRONMENT (what exists below cwd), and what is observed there *)
+Definition env_sensitive (k : sink) : bool := match k with SkFsSections => true | _ => false end.
+Definition observe_env (k : sink) (stdlib : list string) (env : ienv) (imps : list (nat * string)) : list (list string) :=
+  match k with
+  | SkFsSections => layout false stdlib env imps
+  | SkPureText => layout true stdlib env imps
+  | _ => []
+  end.
 
 Definition cg := "client_generators/".
 Local Arguments St : simpl never.
@@ -403,6 +470,21 @@ Definition site_table : list site := [
   St "schema.py" "walk_graphql_files" "listing" "path.glob('**/*')" SkSorted
     "the only caller sorts the paths (load_dir)";
   St "settings.py" "ClientSettings" "ambient" "Path.cwd()" SkInput "default target_package_path";
+  St "utils.py" "ast_to_str" "formatter" "fix_code(code, remove_all_unused_imports=True)" SkPureText "autoflake";
+  St "utils.py" "ast_to_str" "formatter" "isort.code(code)" SkFsSections
+    "default configuration: first-party detection looks below cwd (layout false)";
+  St "utils.py" "ast_to_str" "formatter" "isort.code(code, config=ISORT_CONFIG)" SkPureText
+    "the proposed fix: Config(src_paths=()) (layout true)";
+  St "utils.py" "ast_to_str" "formatter" "format_str(isort.code(code), mode=Mode())" SkPureText "black";
+  St "utils.py" "ast_to_str" "formatter" "format_str(isort.code(code, config=ISORT_CONFIG), mode=Mode())" SkPureText "black";
+  St "contrib/extract_operations.py" "ExtractOperationsPlugin._module_to_str" "formatter"
+    "isort.code(code_with_formatted_strings)" SkFsSections "as utils.ast_to_str";
+  St "contrib/extract_operations.py" "ExtractOperationsPlugin._module_to_str" "formatter"
+    "isort.code(code_with_formatted_strings, config=ISORT_CONFIG)" SkPureText "the proposed fix";
+  St "contrib/extract_operations.py" "ExtractOperationsPlugin._module_to_str" "formatter"
+    "format_str(isort.code(code_with_formatted_strings), mode=Mode())" SkPureText "black";
+  St "contrib/extract_operations.py" "ExtractOperationsPlugin._module_to_str" "formatter"
+    "format_str(isort.code(code_with_formatted_strings, config=ISORT_CONFIG), mode=Mode())" SkPureText "black";
   St "utils.py" "process_name" "construct" "set(name)" SkNone "";
   St "utils.py" "process_name" "construct" "{'_'}" SkNone "";
   St "utils.py" "process_name" "eq" "set(name)" SkMember "";
@@ -468,6 +550,11 @@ Definition run_nondet (e : sexp) : sexp :=
       | _, _ => sErr "procstate" end
   | L [A "sites"] =>
       L (map (fun s => L [A (s_file s); A (s_fn s); A (s_ctx s); A (s_expr s); A (sink_name (s_sink s));
-                          sB (order_sensitive (s_sink s)); A (s_note s)]) site_table)
+                          sB (order_sensitive (s_sink s) || env_sensitive (s_sink s)); A (s_note s)]) site_table)
+  | L [A "layout"; b; sl; cwd; A target; rg; early; imps] =>
+      match dB b, dStrs sl, dStrs cwd, dB rg, dStrs early, dList (dPair dNat dStr) imps with
+      | Some fsfree, Some stdlib, Some c, Some regen, Some ea, Some is =>
+          L (map sStrs (layout fsfree stdlib (gen_env c target regen ea) is))
+      | _, _, _, _, _, _ => sErr "layout" end
   | _ => sErr "nondet: bad command"
   end.
